@@ -8,5 +8,7 @@ CONSTANTS
   MaxCalls = 100000
   NewestFirst = TRUE
   RoutesFirst = TRUE
+  EmptyMeansAll = FALSE
+  StatusSucceeds = FALSE
   StarWithCreds = FALSE
 INVARIANT Sound
